@@ -496,4 +496,223 @@ theorem keyDecrypt_body (P : Prims) (r rpk inp : Bytes) (hm : inp.take 4 = encPr
   simp only [gen_handshakeLen, List.drop_drop]
   rw [if_neg h128]
 
+/-! ### the Noise reader, inverted -/
+
+open Noise in
+/-- `read_message` with the symmetric-state bookkeeping inlined: which key, nonce and AD each `dec` is called with -/
+theorem Noise.readMessage_unfold (P : Prims) (pro r rpk msg : Bytes) :
+    Noise.readMessage P pro r rpk msg =
+      if msg.length < 96 ∨ msg.length > 65535 then .error .other else
+      match P.dh r (msg.take 32) with
+      | none => .error .dh
+      | some d1 =>
+        match P.aead.dec (P.hkdf2 (initR P pro rpk).ck d1).2 0 (P.hash ((initR P pro rpk).h ++ msg.take 32))
+            ((msg.drop 32).take 48) with
+        | none => .error .decrypt
+        | some rs =>
+          if rs.length ≠ 32 then .error .other else
+          match P.dh r rs with
+          | none => .error .dh
+          | some d2 =>
+            match P.aead.dec (P.hkdf2 (P.hkdf2 (initR P pro rpk).ck d1).1 d2).2 0
+                (P.hash (P.hash ((initR P pro rpk).h ++ msg.take 32) ++ (msg.drop 32).take 48)) (msg.drop 80) with
+            | none => .error .decrypt
+            | some payload =>
+              .ok (payload, rs,
+                P.hash (P.hash (P.hash ((initR P pro rpk).h ++ msg.take 32) ++ (msg.drop 32).take 48) ++ msg.drop 80)) := by
+  unfold Noise.readMessage
+  simp only [Sym.mixKey, Sym.decryptAndHash, Sym.mixHash, Option.getD_some]
+  split
+  · rfl
+  · cases h1 : P.dh r (msg.take 32) with
+    | none => rfl
+    | some d1 =>
+      simp only []
+      cases hd1 : P.aead.dec (P.hkdf2 (initR P pro rpk).ck d1).2 0 (P.hash ((initR P pro rpk).h ++ msg.take 32))
+            ((msg.drop 32).take 48) with
+      | none => rfl
+      | some rs =>
+        simp only []
+        split
+        · rfl
+        · cases h2 : P.dh r rs with
+          | none => rfl
+          | some d2 =>
+            simp only []
+            cases hd2 : P.aead.dec (P.hkdf2 (P.hkdf2 (initR P pro rpk).ck d1).1 d2).2 0
+                (P.hash (P.hash ((initR P pro rpk).h ++ msg.take 32) ++ (msg.drop 32).take 48)) (msg.drop 80) with
+            | none => rfl
+            | some payload => rfl
+
+open Noise in
+/-- **Inversion of a successful `read_message`.**  Names the two DH results and the two AEAD opens. -/
+theorem Noise.readMessage_ok_inv (P : Prims) (pro r rpk msg pl S' h : Bytes)
+    (hr : Noise.readMessage P pro r rpk msg = .ok (pl, S', h)) :
+    ∃ d1 d2, 96 ≤ msg.length ∧ msg.length ≤ 65535 ∧ S'.length = 32 ∧
+      P.dh r (msg.take 32) = some d1 ∧
+      P.aead.dec (P.hkdf2 (initR P pro rpk).ck d1).2 0 (P.hash ((initR P pro rpk).h ++ msg.take 32))
+        ((msg.drop 32).take 48) = some S' ∧
+      P.dh r S' = some d2 ∧
+      P.aead.dec (P.hkdf2 (P.hkdf2 (initR P pro rpk).ck d1).1 d2).2 0
+        (P.hash (P.hash ((initR P pro rpk).h ++ msg.take 32) ++ (msg.drop 32).take 48)) (msg.drop 80) = some pl ∧
+      h = P.hash (P.hash (P.hash ((initR P pro rpk).h ++ msg.take 32) ++ (msg.drop 32).take 48) ++ msg.drop 80) := by
+  rw [Noise.readMessage_unfold] at hr
+  split at hr
+  · simp at hr
+  · rename_i hlen
+    split at hr
+    · simp at hr
+    · rename_i d1 h1
+      split at hr
+      · simp at hr
+      · rename_i rs hd1
+        split at hr
+        · simp at hr
+        · rename_i hrs
+          split at hr
+          · simp at hr
+          · rename_i d2 h2
+            split at hr
+            · simp at hr
+            · rename_i payload hd2
+              simp only [Except.ok.injEq, Prod.mk.injEq] at hr
+              obtain ⟨rfl, rfl, rfl⟩ := hr
+              exact ⟨d1, d2, by omega, by omega, by simpa using hrs, h1, hd1, h2, hd2, rfl⟩
+
+theorem msg_split (msg : Bytes) : msg = msg.take 32 ++ (msg.drop 32).take 48 ++ msg.drop 80 := by
+  have h1 : msg.drop 80 = (msg.drop 32).drop 48 := by rw [List.drop_drop]
+  rw [h1, List.append_assoc, List.take_append_drop, List.take_append_drop]
+
+/-- if the first `|a|+|b|` bytes of `F` are `a ++ b` then its first `|a|` bytes are `a`, the next `|b|` are `b` -/
+theorem take_append_split (F a b : Bytes) (h : F.take (a.length + b.length) = a ++ b) :
+    F.take a.length = a ∧ (F.drop a.length).take b.length = b ∧ a.length + b.length ≤ F.length := by
+  have hl : a.length + b.length ≤ F.length := by
+    have := congrArg List.length h
+    simp only [List.length_take, List.length_append] at this; omega
+  refine ⟨?_, ?_, hl⟩
+  · have : F.take a.length = (F.take (a.length + b.length)).take a.length := by
+      rw [List.take_take]; congr 1; omega
+    rw [this, h]; exact List.take_left' rfl
+  · have : (F.drop a.length).take b.length = (F.take (a.length + b.length)).drop a.length := by
+      rw [List.drop_take]; congr 1; omega
+    rw [this, h]; exact List.drop_left' rfl
+
+/-! ### record 0 of an honest stream -/
+
+/-- associated data of record 0 of the honest stream for chunk list `cl` -/
+def ad0 (aad : Bytes) (cl : List Bytes) : Bytes :=
+  aad ++ be32 (if cl.length ≤ 1 then 1 else 0) ++ be32 (cl.headD []).length
+
+/-- body of record 0 of the honest stream sealed under `key` -/
+def body0 (A : Aead) (key aad : Bytes) (cl : List Bytes) : Bytes :=
+  A.enc key 0 (ad0 aad cl) (cl.headD [])
+
+/-- an honest stream begins with record 0 -/
+theorem serialize_head (A : Aead) (key aad : Bytes) (cf : Nat → Bytes) (cl : List Bytes) (hne : cl ≠ []) :
+    ∃ tail, serialize A key aad cf 0 cl =
+      cf 0 ++ be32 (if cl.length ≤ 1 then 1 else 0) ++ be32 (cl.headD []).length ++ body0 A key aad cl ++ tail := by
+  match cl, hne with
+  | [c], _ => exact ⟨[], by simp [serialize, record, body0, ad0]⟩
+  | c :: c' :: cs', _ => exact ⟨serialize A key aad cf 1 (c' :: cs'), by simp [serialize, record, body0, ad0]⟩
+
+/-- **What a decryptor holding a different key does with an honest stream**: exactly one AEAD check, of record 0,
+    under its own key; if that fails nothing is written and the result is the authentication error. -/
+theorem decryptChunks_other_key (A : Aead) (key key' aad : Bytes) (cs : Nat) (cf : Nat → Bytes) (cl : List Bytes)
+    (hSl : ∀ n ad p, (A.enc key n ad p).length = p.length + 16)
+    (hcf : (cf 0).length = 8) (hne : cl ≠ []) (hle : ∀ c ∈ cl, c.length ≤ cs) (hcs : cs < 2^32)
+    (hnone : A.dec key' 0 (ad0 aad cl) (body0 A key aad cl) = none) :
+    decryptChunks A key' aad cs (serialize A key aad cf 0 cl) = ([], .auth) := by
+  obtain ⟨tail, hser⟩ := serialize_head A key aad cf cl hne
+  have hc0 : (cl.headD []).length ≤ cs := by
+    match cl, hne with
+    | c :: _, _ => exact hle c (by simp)
+  have hbl : (body0 A key aad cl).length = (cl.headD []).length + 16 := hSl _ _ _
+  unfold decryptChunks
+  rw [hser]
+  have hfuel : ∃ f, (cf 0 ++ be32 (if cl.length ≤ 1 then 1 else 0) ++ be32 (cl.headD []).length ++
+      body0 A key aad cl ++ tail).length = f + 1 := by
+    refine ⟨(cf 0 ++ be32 (if cl.length ≤ 1 then 1 else 0) ++ be32 (cl.headD []).length ++
+      body0 A key aad cl ++ tail).length - 1, ?_⟩
+    simp only [List.length_append, hcf]; omega
+  obtain ⟨f, hf⟩ := hfuel
+  rw [hf, decLoop_frame A key' aad cs f 0 (cf 0) _ (body0 A key aad cl) tail (cl.headD []).length hcf rfl hc0
+    (by omega) hbl]
+  unfold ad0 at hnone
+  rw [hnone]
+
+/-! ### names for the values of the X handshake (exactly the expressions `readMessage`/`writeMessage` compute) -/
+
+namespace Noise
+
+/-- chaining key before the first DH: the padded protocol name (the same for every party) -/
+def ck0 (P : Prims) : Bytes := (Sym.init P protocolName).ck
+/-- chaining key after `es`, from the first DH result `d1` -/
+def ck1 (P : Prims) (d1 : Bytes) : Bytes := (P.hkdf2 (ck0 P) d1).1
+/-- key sealing the static-key field, from the first DH result `d1` -/
+def k1 (P : Prims) (d1 : Bytes) : Bytes := (P.hkdf2 (ck0 P) d1).2
+/-- key sealing the payload field, from both DH results -/
+def k2 (P : Prims) (d1 d2 : Bytes) : Bytes := (P.hkdf2 (ck1 P d1) d2).2
+/-- handshake hash after prologue and recipient static key `X` -/
+def h0 (P : Prims) (pro X : Bytes) : Bytes := P.hash (P.hash ((Sym.init P protocolName).h ++ pro) ++ X)
+/-- AD of the static-key field: after mixing in the ephemeral public key `E` -/
+def h1 (P : Prims) (pro X E : Bytes) : Bytes := P.hash (h0 P pro X ++ E)
+/-- AD of the payload field: after mixing in the sealed static-key field `c1` -/
+def h2 (P : Prims) (pro X E c1 : Bytes) : Bytes := P.hash (h1 P pro X E ++ c1)
+/-- final handshake hash -/
+def h3 (P : Prims) (pro X E c1 c2 : Bytes) : Bytes := P.hash (h2 P pro X E c1 ++ c2)
+
+theorem initR_ck (P : Prims) (pro X : Bytes) : (initR P pro X).ck = ck0 P := rfl
+theorem initI_ck (P : Prims) (pro X : Bytes) : (initI P pro X).ck = ck0 P := rfl
+theorem initR_h (P : Prims) (pro X : Bytes) : (initR P pro X).h = h0 P pro X := rfl
+theorem initI_h (P : Prims) (pro X : Bytes) : (initI P pro X).h = h0 P pro X := rfl
+
+/-- `readMessage_ok_inv` in terms of the named values -/
+theorem readMessage_ok_named (P : Prims) (pro r rpk msg pl S' h : Bytes)
+    (hr : readMessage P pro r rpk msg = .ok (pl, S', h)) :
+    ∃ d1 d2, 96 ≤ msg.length ∧ msg.length ≤ 65535 ∧ S'.length = 32 ∧
+      P.dh r (msg.take 32) = some d1 ∧
+      P.aead.dec (k1 P d1) 0 (h1 P pro rpk (msg.take 32)) ((msg.drop 32).take 48) = some S' ∧
+      P.dh r S' = some d2 ∧
+      P.aead.dec (k2 P d1 d2) 0 (h2 P pro rpk (msg.take 32) ((msg.drop 32).take 48)) (msg.drop 80) = some pl ∧
+      h = h3 P pro rpk (msg.take 32) ((msg.drop 32).take 48) (msg.drop 80) :=
+  readMessage_ok_inv P pro r rpk msg pl S' h hr
+
+/-- `writeMessage_ok` in terms of the named values -/
+theorem writeMessage_ok_named (P : Prims) (pro s spk rs e epk payload d1 d2 : Bytes)
+    (h1e : P.dh e rs = some d1) (h2e : P.dh s rs = some d2) :
+    writeMessage P pro s spk rs e epk payload =
+      .ok (epk ++ P.aead.enc (k1 P d1) 0 (h1 P pro rs epk) spk ++
+             P.aead.enc (k2 P d1 d2) 0 (h2 P pro rs epk (P.aead.enc (k1 P d1) 0 (h1 P pro rs epk) spk)) payload,
+           h3 P pro rs epk (P.aead.enc (k1 P d1) 0 (h1 P pro rs epk) spk)
+             (P.aead.enc (k2 P d1 d2) 0 (h2 P pro rs epk (P.aead.enc (k1 P d1) 0 (h1 P pro rs epk) spk)) payload)) := by
+  obtain ⟨encS, encP, hh, hw, hS, hP, hH⟩ := writeMessage_ok P pro s spk rs e epk payload d1 d2 h1e h2e
+  rw [hw, hH, hP, hS]; rfl
+
+/-- a successful `writeMessage` determines its two DH results -/
+theorem writeMessage_ok_dh (P : Prims) (pro s spk rs e epk payload msg h : Bytes)
+    (hw : writeMessage P pro s spk rs e epk payload = .ok (msg, h)) :
+    ∃ d1 d2, P.dh e rs = some d1 ∧ P.dh s rs = some d2 := by
+  cases h1 : P.dh e rs with
+  | none =>
+    have := (writeMessage_error_iff P pro s spk rs e epk payload).mpr (Or.inl h1)
+    obtain ⟨err, he⟩ := this; rw [he] at hw; simp at hw
+  | some d1 =>
+    cases h2 : P.dh s rs with
+    | none =>
+      have := (writeMessage_error_iff P pro s spk rs e epk payload).mpr (Or.inr h2)
+      obtain ⟨err, he⟩ := this; rw [he] at hw; simp at hw
+    | some d2 => exact ⟨d1, d2, rfl, rfl⟩
+
+/-- the three fields of an honest message, as the reader slices them -/
+theorem honest_msg_fields (E c1 c2 : Bytes) (hE : E.length = 32) (hc1 : c1.length = 48) :
+    (E ++ c1 ++ c2).take 32 = E ∧ ((E ++ c1 ++ c2).drop 32).take 48 = c1 ∧ (E ++ c1 ++ c2).drop 80 = c2 := by
+  refine ⟨?_, ?_, ?_⟩
+  · rw [List.append_assoc]; exact List.take_left' hE
+  · rw [List.append_assoc, List.drop_left' hE]; exact List.take_left' hc1
+  · exact List.drop_left' (by simp only [List.length_append, hE, hc1])
+
+theorem msg_split' (msg : Bytes) : msg = msg.take 32 ++ (msg.drop 32).take 48 ++ msg.drop 80 := msg_split msg
+
+end Noise
+
 end Kestrel
